@@ -492,7 +492,12 @@ def e2e_part(chk, tier, E, fails):
             rc, out, _ = E.run_bin(os.path.join(proot, "tiny"))
             lines = out.decode("utf-8", "replace").splitlines()
             chk.count_cases(["positions|%s" % " ".join(gflags)])
-            bad = [l for l in lines if not re.search(r'file="(\?\?)?" line=(1|0)$', l)]
+            multi = [l for l in lines if l.startswith("literal ") and not re.search(r'file="(\?\?)?" line=(1|0)$', l)]
+            if multi:
+                # go/printer may spread the called literal over several lines (it depends on the length of the obfuscated
+                # names); the call's own parenthesis then sits below the line directive
+                fails.append({"why": "under -tiny a call expression that is printed over several lines reports a line other than 1", "detail": {"flags": gflags, "output": multi}, "key": "tiny-position-of-multi-line-call"})
+            bad = [l for l in lines if not l.startswith("literal ") and not re.search(r'file="(\?\?)?" line=(1|0)$', l)]
             st.setdefault("position_queries", 0)
             st["position_queries"] += len(lines)
             if bad or len(lines) != 7:
